@@ -33,7 +33,9 @@ Holds(cl, t) ==
     [] cl = "C18.guesssingle" -> \A k \in DOMAIN cs : (cs[k].res /\ Cardinality(Cands(cs[k])) = 1) =>
                                       cs[k].guess \in Cands(cs[k])
     [] cl = "C18.guessneedsyear" -> \A k \in DOMAIN cs :
-                                      (cs[k].res /\ Cardinality(Cands(cs[k])) > 1 /\ cs[k].guess # "") => cs[k].year # -1
+                                      \* (own year only: a parallel citation's year is overwritten by the inherited one -- possibly
+                                      \*  None -- AFTER its edition was guessed with its own year, which is no longer observable)
+                                      (cs[k].res /\ Cardinality(Cands(cs[k])) > 1 /\ cs[k].guess # "" /\ Own(cs, k)) => cs[k].year # -1
     [] cl = "C18.guessonly" -> \A k \in DOMAIN cs :
                                       (cs[k].res /\ Cardinality(Cands(cs[k])) > 1 /\ cs[k].guess # "" /\ cs[k].year # -1 /\ Own(cs, k)) =>
                                       {e \in Cands(cs[k]) : IncludesT(tr, e, cs[k].year)} = {cs[k].guess}
@@ -52,7 +54,7 @@ Exercised(cl, t) ==
   ELSE CASE cl \in {"C18.yearrange", "C18.yeartext"} -> \E k \in DOMAIN cs : cs[k].res /\ cs[k].year # -1
     [] cl = "C18.guessmember" -> \E k \in DOMAIN cs : cs[k].res /\ cs[k].guess # ""
     [] cl = "C18.guesssingle" -> \E k \in DOMAIN cs : cs[k].res /\ Cardinality(Cands(cs[k])) = 1
-    [] cl = "C18.guessneedsyear" -> \E k \in DOMAIN cs : cs[k].res /\ Cardinality(Cands(cs[k])) > 1 /\ cs[k].guess # ""
+    [] cl = "C18.guessneedsyear" -> \E k \in DOMAIN cs : cs[k].res /\ Cardinality(Cands(cs[k])) > 1 /\ cs[k].guess # "" /\ Own(cs, k)
     [] cl = "C18.guessonly" -> \E k \in DOMAIN cs : cs[k].res /\ Cardinality(Cands(cs[k])) > 1 /\ cs[k].guess # "" /\ cs[k].year # -1 /\ Own(cs, k)
     [] cl = "C18.disambig" -> \E k \in DOMAIN cs : cs[k].res /\ cs[k].guess = ""      \* something is removed
     [] OTHER -> FALSE
